@@ -39,7 +39,7 @@ fn announce_matches_datasets(h: &Header, m: &AnnounceMessage, st: &PtpInstanceSt
         && m.header == *h
 }
 
-// @harness c11_send_announce
+// @harness c11_send_announce_pt
 // @props C11:quick C15:quick C08:quick C12:quick C03:thorough C17:thorough
 // @tier quick
 // @variant dl128_lists2
@@ -47,7 +47,7 @@ fn announce_matches_datasets(h: &Header, m: &AnnounceMessage, st: &PtpInstanceSt
 // @timeout 1800
 // @mem 14
 // @functions Port::handle_announce_timer, Port::send_announce, Message::announce, TlvSetBuilder::add, TlvSetBuilder::build, Tlv::serialize, SequenceIdGenerator::generate
-// @bounds one step from an arbitrary port state (all five); arbitrary parentDS / currentDS (stepsRemoved <= 255) / timePropertiesDS (every leap / utc / traceable / timescale / time-source combination); path trace on or off with one symbolic entry in the list; no forwarded TLVs; announce interval 2^0 s
+// @bounds one step from an arbitrary port state (all five); arbitrary parentDS / currentDS (stepsRemoved <= 255) / timePropertiesDS (every leap / utc / traceable / timescale / time-source combination); path trace on with one symbolic entry in the list (case split with c11_send_announce_nopt); no forwarded TLVs; announce interval 2^0 s
 // @assume MAX_DATA_LEN scaled 1024 -> 128 (margin 64, path capacity 16) and list capacities 8 -> 2 in the scratch copy
 // @assume Message::serialize replaced by the recording stub (typed oracle); octet-level encoding of any typed Announce is decided by c04_encode_announce, the TLV suffix octets by the library's own iterator read-back in the stub
 // @assume Interval::as_core_duration replaced by its integer equivalent (validated for interval 0)
@@ -55,8 +55,11 @@ fn announce_matches_datasets(h: &Header, m: &AnnounceMessage, st: &PtpInstanceSt
 #[kani::unwind(20)]
 #[kani::stub(crate::datastructures::messages::Message::serialize, crate::datastructures::messages::verif_messages::serialize_rec)]
 #[kani::stub(crate::time::Interval::as_core_duration, crate::verif_root::stubs::as_core_duration_int)]
-fn c11_send_announce() {
+fn c11_send_announce_pt() { send_announce_case(true) }
+
+fn send_announce_case(path_trace: bool) {
     let state = any_state(1);
+    state.poke().path_trace_ds.enable = path_trace;
     let (mut port, cfg, code) = setup(&state);
     let seq0 = seq_peek(&port.announce_seq_ids);
     let before = snapshot(&port);
@@ -91,8 +94,8 @@ fn c11_send_announce() {
             assert!(ser_tlv_count() == 0 && ser_suffix_len() == 0 && d.general_len == 64, "C15: TLV emitted although nothing is to be forwarded");
         }
         assert!(d.general_len <= MAX_DATA_LEN);
-        kani::cover!(st.path_trace_ds.enable, "path trace on");
-        kani::cover!(!st.path_trace_ds.enable && st.time_properties_ds.current_utc_offset.is_some() && !st.time_properties_ds.ptp_timescale, "utc offset valid on an ARB timescale");
+        kani::cover!(st.path_trace_ds.enable == path_trace, "path trace as configured for this part");
+        kani::cover!(st.time_properties_ds.current_utc_offset.is_some() && !st.time_properties_ds.ptp_timescale, "utc offset valid on an ARB timescale");
         kani::cover!(seq0 == 65535, "sequence wrap");
     } else {
         assert!(d.none() && ser_count() == 0 && snapshot(&port) == before, "C08: Announce emitted / state changed by a non-master port");
@@ -102,6 +105,24 @@ fn c11_send_announce() {
     kani::cover!(code != ST_MASTER, "non-master silent");
     core::mem::forget(port);
 }
+
+// @harness c11_send_announce_nopt
+// @props C11:quick C15:quick C08:quick C12:quick C03:thorough C17:thorough
+// @tier quick
+// @variant dl128_lists2
+// @stubbing yes
+// @timeout 1800
+// @mem 14
+// @functions Port::handle_announce_timer, Port::send_announce, Message::announce, TlvSetBuilder::add, TlvSetBuilder::build, Tlv::serialize, SequenceIdGenerator::generate
+// @bounds one step from an arbitrary port state (all five); arbitrary parentDS / currentDS (stepsRemoved <= 255) / timePropertiesDS (every leap / utc / traceable / timescale / time-source combination); path trace off (case split with c11_send_announce_pt); no forwarded TLVs; announce interval 2^0 s
+// @assume MAX_DATA_LEN scaled 1024 -> 128 (margin 64, path capacity 16) and list capacities 8 -> 2 in the scratch copy
+// @assume Message::serialize replaced by the recording stub (typed oracle); octet-level encoding of any typed Announce is decided by c04_encode_announce, the TLV suffix octets by the library's own iterator read-back in the stub
+// @assume Interval::as_core_duration replaced by its integer equivalent (validated for interval 0)
+#[kani::proof]
+#[kani::unwind(20)]
+#[kani::stub(crate::datastructures::messages::Message::serialize, crate::datastructures::messages::verif_messages::serialize_rec)]
+#[kani::stub(crate::time::Interval::as_core_duration, crate::verif_root::stubs::as_core_duration_int)]
+fn c11_send_announce_nopt() { send_announce_case(false) }
 
 /// TLV provider that honours exactly the documented contract of `ForwardedTLVProvider::next_if_smaller`
 /// ("provide the next available TLV, unless it is larger than max_size") over a queue of two TLVs.
